@@ -289,11 +289,17 @@ double Interpolation::Integrate(double x_1, double x_2)
 		double x_j			  = x_values[j];
 		double x_left		  = (i == 0) ? x_1 : x_j;
 		double x_right		  = (i == (i_2 - i_1)) ? x_2 : x_values[j + 1];
-		double stemfunc_left  = prefactor * (a[j] / 4.0 * pow((x_left - x_j), 4.0) + b[j] / 3.0 * pow((x_left - x_j), 3.0) + c[j] / 2.0 * pow((x_left - x_j), 2.0) + d[j] * (x_left - x_j));
-		double stemfunc_right = prefactor * (a[j] / 4.0 * pow((x_right - x_j), 4.0) + b[j] / 3.0 * pow((x_right - x_j), 3.0) + c[j] / 2.0 * pow((x_right - x_j), 2.0) + d[j] * (x_right - x_j));
-		integral += stemfunc_right - stemfunc_left;
+		// The cubic and its derivatives at the left limit (Horner), integrated exactly over the width of the piece: no difference
+		// of two antiderivative values (which loses h/width digits on a short range) and no fourth power of the offset.
+		double t  = x_left - x_j;
+		double w  = x_right - x_left;
+		double p0 = ((a[j] * t + b[j]) * t + c[j]) * t + d[j];
+		double p1 = (3.0 * a[j] * t + 2.0 * b[j]) * t + c[j];
+		double p2 = 3.0 * a[j] * t + b[j];
+		integral += w * (p0 + w * (p1 / 2.0 + w * (p2 / 3.0 + w * a[j] / 4.0)));
 	}
-	return sign * integral;
+	// The prefactor is applied once, so that the result is exactly the prefactor times the integral of the unscaled curve.
+	return sign * prefactor * integral;
 }
 
 // The cubic pieces are monotone between their knots, but the continuation of the first (last) piece into the
